@@ -395,6 +395,19 @@ func rollbackKey(db *NoKV.DB, reader *Reader, key []byte, startTs uint64) *pb.Ke
 	if err := db.DeleteVersionedEntry(kv.CFDefault, key, startTs); err != nil && err != utils.ErrKeyNotFound {
 		return keyErrorRetryable(err)
 	}
+	// The rollback marker goes to (key, startTs). Another transaction's commit record sits at
+	// exactly that version when its commit version equals our start version: it must not be
+	// overwritten (that would undo a committed transaction), and it already refuses a late
+	// prewrite of ours with a write conflict, which is all the marker is for.
+	occupied, err := db.GetVersionedEntry(kv.CFWrite, key, startTs)
+	if err != nil && err != utils.ErrKeyNotFound {
+		return keyErrorRetryable(err)
+	}
+	if err == nil && occupied.Version == startTs && occupied.Meta&kv.BitDelete == 0 {
+		if other, derr := DecodeWrite(occupied.Value); derr == nil && other.StartTs != startTs {
+			return nil
+		}
+	}
 	rollback := EncodeWrite(Write{Kind: pb.Mutation_Rollback, StartTs: startTs})
 	if err := db.SetVersionedEntry(kv.CFWrite, key, startTs, rollback, 0); err != nil {
 		return keyErrorRetryable(err)
